@@ -7,7 +7,8 @@ RULE = ("exhaustive: all 20 configurations x all 2^n+1 bases x all 2^n group ele
         "configuration (with its circuit); non-trivial = basis whose circuit has >= 1 two-qubit gate; distinct by "
         "(n, connectivity, basis index). Oracle: strict Pauli parser, brute-force validity, span enumeration into a "
         "counter over all 4^n-1 Paulis, symplectic propagation of every group element, own gate counter / ASAP depth, "
-        "and the library's own readout circuit for the cost comparison.")
+        "and the library's own readout circuit for the cost comparison. Additionally all configurations are queried one after the other in "
+        "one process in shuffled orders (cheap subset of the predicates) to expose state carried between calls.")
 ASSUMPTIONS = ["bitmask Pauli algebra (self-tested against dense matrices)", "own gate counter (swap = 3)"]
 
 
@@ -115,14 +116,70 @@ def check_config(cfg, rep):
                 bad(f"info:{k}", f"info[{k!r}] = {info[k]} but the circuits give {v}", observed=info[k], expected=v)
 
 
+def light_check(cfg, rep, history):
+    """cheap subset of the predicates, used for the in-process sequences over configurations"""
+    L = libif.lib()
+    n, name = cfg
+    tag = f"{n}-{name}"
+    case = {"sequence": [list(c) for c in history]}
+    try:
+        mubs = L.mub.get_mubs(n, name)
+        circs = L.mub.get_mub_circuits(n, name)
+        info = L.mub.get_mub_info(n, name)
+    except Exception as e:  # noqa: BLE001
+        rep.fail(f"{tag}:raised:in-sequence", case, f"MUB {tag}: API raised {type(e).__name__} after calls for {history[:-1]}")
+        return
+    want = (1 << n) + 1
+    if len(mubs) != want or len(circs) != want:
+        rep.fail(f"{tag}:count:in-sequence", case, f"MUB {tag}: {len(mubs)} bases / {len(circs)} circuits after calls for {history[:-1]}")
+        return
+    costs, depths = [], []
+    for i in range(want):
+        ops = [(o[0], tuple(o[1])) for o in libif.ops_of(circs[i])]
+        costs.append(cost.twoq_count(ops))
+        depths.append(cost.twoq_depth(ops))
+        try:
+            gens = [pauli.parse(s)[:3] for s in mubs[i]]
+            if any(pauli.parse(s)[3] != n for s in mubs[i]) or any(pauli.propagate(g, ops)[1] != 0 for g in gens):
+                rep.fail(f"{tag}:basis{i}:notdiagonal:in-sequence", case, f"MUB {tag}: circuit {i} does not diagonalise basis {i} = {mubs[i]} after calls for {history[:-1]}")
+                break
+        except Exception:  # noqa: BLE001
+            rep.fail(f"{tag}:basis{i}:format:in-sequence", case, f"MUB {tag}: basis {i} = {mubs[i]!r} malformed after calls for {history[:-1]}")
+            break
+    exp = {"num circuits": want, "max two-qubit count": max(costs), "max two-qubit depth": max(depths), "average two-qubit count": sum(costs) / want}
+    for k, v in exp.items():
+        if k not in info or abs(float(info[k]) - float(v)) > 1e-9:
+            rep.fail(f"{tag}:info:{k}:in-sequence", case, f"MUB {tag}: info[{k!r}] = {info.get(k)} but the circuits give {v} (after calls for {history[:-1]})")
+
+
+def shard_sequence(arg):
+    """all 20 configurations queried one after the other IN ONE PROCESS, in shuffled orders: state carried from one
+    configuration to the next (caches keyed too coarsely) shows up here"""
+    seed, passes = arg
+    rep = fw.Report()
+    hist = []
+    for p in range(passes):
+        order = list(coupling.CONFIGS)
+        fw.rng_for("c09seq", seed, p).shuffle(order)
+        for cfg in order:
+            hist.append(cfg)
+            light_check(cfg, rep, hist[-6:])
+            rep.case(("seq", p, cfg, tuple(hist[-3:])) if cfg[1] != "all" else None, None)
+            rep.count("in_process_sequence_steps", f"pass{p}")
+    return rep
+
+
 def shard(cfg):
     rep = fw.Report()
+    if cfg and cfg[0] == "sequence":
+        return shard_sequence(cfg[1:])
     check_config(tuple(cfg), rep)
     return rep
 
 
 def run(ctx):
-    rep = fw.run_shards(ctx, "props.c09", "shard", [list(c) for c in coupling.CONFIGS])
+    args = [["sequence", ctx.seed, 2 if ctx.quick else 12]] + [list(c) for c in sorted(coupling.CONFIGS, key=lambda c: -c[0])]
+    rep = fw.run_shards(ctx, "props.c09", "shard", args)
     rep.extra["exhaustive"] = True
     rep.extra["configurations"] = len(coupling.CONFIGS)
     return rep
@@ -130,6 +187,13 @@ def run(ctx):
 
 def replay(case):
     rep = fw.Report()
+    if "sequence" in case:
+        hist = []
+        for cfg in case["sequence"]:
+            rep = fw.Report()
+            hist.append(tuple(cfg))
+            light_check(tuple(cfg), rep, hist)
+        return rep.failures
     check_config((case["n"], case["connectivity"]), rep)
     if "basis_index" in case:
         sel = [f for f in rep.failures if f["case"].get("basis_index") == case["basis_index"]]
